@@ -161,6 +161,8 @@ class AverageLearner(BaseLearner):
             )
 
     def ask(self, n: int, tell_pending: bool = True) -> tuple[list[int], list[Float]]:
+        if n == 0:
+            return [], []
         points = list(range(self.n_requested, self.n_requested + n))
 
         if any(p in self.data or p in self.pending_points for p in points):
